@@ -55,3 +55,68 @@ func specEdge(cur SignalingState, op stateChangeOp, typ SDPType) SignalingState 
 
 	return SignalingStateUnknown
 }
+
+func validSignalingState(s SignalingState) bool {
+	return s >= SignalingStateStable && s <= SignalingStateClosed
+}
+
+// pcValid: the pointer-shaped part of the PeerConnection representation invariant
+// that NewPeerConnection establishes and nothing changes afterwards.
+func pcValid(pc *PeerConnection) bool {
+	return pc != nil && pc.isClosed != nil && pc.isNegotiationNeeded != nil &&
+		pc.updateNegotiationNeededFlagOnEmptyChain != nil && pc.ops != nil && pc.api != nil &&
+		pc.api.settingEngine != nil && pc.api.mediaEngine != nil && pc.log != nil
+}
+
+// specDescInv is C01's third sentence as an object invariant: no pending
+// description in stable, and the pending description the state names exists.
+func specDescInv(pc *PeerConnection) bool {
+	switch pc.signalingState {
+	case SignalingStateStable:
+		return pc.pendingLocalDescription == nil && pc.pendingRemoteDescription == nil
+	case SignalingStateHaveLocalOffer:
+		return pc.pendingLocalDescription != nil && pc.pendingRemoteDescription == nil
+	case SignalingStateHaveRemoteOffer:
+		return pc.pendingRemoteDescription != nil && pc.pendingLocalDescription == nil
+	case SignalingStateHaveLocalPranswer:
+		return pc.pendingLocalDescription != nil && pc.pendingRemoteDescription != nil
+	case SignalingStateHaveRemotePranswer:
+		return pc.pendingLocalDescription != nil && pc.pendingRemoteDescription != nil
+	}
+
+	return true
+}
+
+// specConnState is the W3C RTCPeerConnectionState aggregate for one ICE and one
+// DTLS transport (https://www.w3.org/TR/webrtc/#rtcpeerconnectionstate-enum),
+// in the precedence order of the specification.
+func specConnState(closed bool, ice ICEConnectionState, dtls DTLSTransportState) PeerConnectionState {
+	if closed {
+		return PeerConnectionStateClosed
+	}
+	if ice == ICEConnectionStateFailed || dtls == DTLSTransportStateFailed {
+		return PeerConnectionStateFailed
+	}
+	if ice == ICEConnectionStateDisconnected {
+		return PeerConnectionStateDisconnected
+	}
+	iceNewOrClosed := ice == ICEConnectionStateNew || ice == ICEConnectionStateClosed
+	dtlsNewOrClosed := dtls == DTLSTransportStateNew || dtls == DTLSTransportStateClosed
+	if iceNewOrClosed && dtlsNewOrClosed {
+		return PeerConnectionStateNew
+	}
+	if ice == ICEConnectionStateNew || ice == ICEConnectionStateChecking ||
+		dtls == DTLSTransportStateNew || dtls == DTLSTransportStateConnecting {
+		return PeerConnectionStateConnecting
+	}
+
+	return PeerConnectionStateConnected
+}
+
+func validICEConnectionState(s ICEConnectionState) bool {
+	return s >= ICEConnectionStateNew && s <= ICEConnectionStateClosed
+}
+
+func validDTLSTransportState(s DTLSTransportState) bool {
+	return s >= DTLSTransportStateNew && s <= DTLSTransportStateFailed
+}
